@@ -116,6 +116,171 @@ pub fn check(c: &Case) -> Verdict {
 }
 
 
+
+// ---------------------------------------------------------------------------------------------
+// hand-over through `into_inner`: after k calls the reader is taken apart and a NEW reader with the
+// same configuration is built on the source it gives back. Whatever the source type and the
+// chunking, the source must come back positioned exactly behind what the events accounted for, so
+// the records of the second reader must not depend on them either.
+
+fn until_done(out: &mut Vec<Rec>, bound: usize, mut next: impl FnMut() -> Rec) {
+    let mut extra = 0;
+    for _ in 0..bound {
+        let rec = next();
+        let done = matches!(rec.ev, Ev::Eof) || rec.ev.is_fatal();
+        out.push(rec);
+        if done || extra > 0 {
+            extra += 1;
+            if extra > crate::rec::EXTRA_CALLS {
+                break;
+            }
+        }
+    }
+}
+
+/// None = the run ended before the hand-over point
+fn handover_slice(data: &[u8], bits: u8, k: usize) -> (Vec<Rec>, Option<Vec<u8>>) {
+    let mut r = Reader::from_reader(data);
+    apply_cfg(r.config_mut(), bits);
+    let mut out = vec![];
+    for _ in 0..k {
+        let e = r.read_event();
+        let ev = ev_of(&e);
+        drop(e);
+        let done = matches!(ev, Ev::Eof) || ev.is_fatal();
+        out.push(Rec { ev, pos: r.buffer_position(), err_pos: r.error_position() });
+        if done {
+            return (out, None);
+        }
+    }
+    let cfg = r.config().clone();
+    let seen_by_get_ref: Vec<u8> = r.get_ref().to_vec();
+    let rest: &[u8] = r.into_inner();
+    if rest != &seen_by_get_ref[..] {
+        out.push(Rec { ev: Ev::Other("get_ref and into_inner show different sources".into()), pos: 0, err_pos: 0 });
+        return (out, None);
+    }
+    let mut r2 = Reader::from_reader(rest);
+    *r2.config_mut() = cfg;
+    until_done(&mut out, crate::rec::call_bound(data.len()) + crate::rec::EXTRA_CALLS, || {
+        let e = r2.read_event();
+        let ev = ev_of(&e);
+        drop(e);
+        Rec { ev, pos: r2.buffer_position(), err_pos: r2.error_position() }
+    });
+    (out, Some(rest.to_vec()))
+}
+
+fn handover_buffered(data: &[u8], bits: u8, cuts: &[usize], k: usize, clear: bool) -> Vec<Rec> {
+    let mut r = Reader::from_reader(ChunkedBufRead::new(data, cuts.to_vec()));
+    apply_cfg(r.config_mut(), bits);
+    let mut out = vec![];
+    let mut buf = Vec::new();
+    for _ in 0..k {
+        if clear {
+            buf.clear();
+        }
+        let e = r.read_event_into(&mut buf);
+        let ev = ev_of(&e);
+        drop(e);
+        let done = matches!(ev, Ev::Eof) || ev.is_fatal();
+        out.push(Rec { ev, pos: r.buffer_position(), err_pos: r.error_position() });
+        if done {
+            return out;
+        }
+    }
+    let cfg = r.config().clone();
+    let _ = r.get_ref();
+    let _ = r.get_mut();
+    let mut r2 = Reader::from_reader(r.into_inner());
+    *r2.config_mut() = cfg;
+    let mut buf = Vec::new();
+    until_done(&mut out, crate::rec::call_bound(data.len()) + crate::rec::EXTRA_CALLS, || {
+        if clear {
+            buf.clear();
+        }
+        let e = r2.read_event_into(&mut buf);
+        let ev = ev_of(&e);
+        drop(e);
+        Rec { ev, pos: r2.buffer_position(), err_pos: r2.error_position() }
+    });
+    out
+}
+
+fn handover_async(data: &[u8], bits: u8, cuts: &[usize], pend: &[u8], k: usize, clear: bool) -> Vec<Rec> {
+    let mut r = Reader::from_reader(ChunkedAsync::new(data, cuts.to_vec(), pend.to_vec()));
+    apply_cfg(r.config_mut(), bits);
+    let mut out = vec![];
+    let mut buf = Vec::new();
+    for _ in 0..k {
+        if clear {
+            buf.clear();
+        }
+        let ev = {
+            let e = block_on(r.read_event_into_async(&mut buf));
+            ev_of(&e)
+        };
+        let done = matches!(ev, Ev::Eof) || ev.is_fatal();
+        out.push(Rec { ev, pos: r.buffer_position(), err_pos: r.error_position() });
+        if done {
+            return out;
+        }
+    }
+    let cfg = r.config().clone();
+    let mut r2 = Reader::from_reader(r.into_inner());
+    *r2.config_mut() = cfg;
+    let mut buf = Vec::new();
+    until_done(&mut out, crate::rec::call_bound(data.len()) + crate::rec::EXTRA_CALLS, || {
+        if clear {
+            buf.clear();
+        }
+        let ev = {
+            let e = block_on(r2.read_event_into_async(&mut buf));
+            ev_of(&e)
+        };
+        Rec { ev, pos: r2.buffer_position(), err_pos: r2.error_position() }
+    });
+    out
+}
+
+pub fn check_handover(c: &Case) -> Verdict {
+    let data = &c.input.0;
+    let cuts = normalise_cuts(data, &c.cuts);
+    // the hand-over point: a pure function of the case
+    let k = 1 + (c.pend.iter().map(|p| *p as usize).sum::<usize>() + c.cuts.len()) % 4;
+    let (base, rest) = handover_slice(data, c.cfg, k);
+    if let Some(last) = base.last() {
+        if let Ev::Other(m) = &last.ev {
+            if m.starts_with("get_ref") {
+                return Verdict::fail(m.clone());
+            }
+        }
+    }
+    let rest = match rest {
+        Some(r) => r,
+        None => return Verdict::excluded("run-ended-before-the-hand-over"),
+    };
+    // the second reader sniffs its first piece like any reader: a remainder that begins with a
+    // byte of a signature is under the exception written into the property
+    if matches!(rest.first(), Some(0xEF | 0xFE | 0xFF | 0x00)) || rest.get(1) == Some(&0) {
+        return Verdict::excluded("remainder-starts-like-a-signature");
+    }
+    let chunked = handover_buffered(data, c.cfg, &cuts, k, c.clear);
+    if let Some(d) = first_diff(&base, &chunked) {
+        return Verdict::fail(format!("hand-over through into_inner after {} calls, slice vs buffered(cuts {:?}): {} | cfg={} | slice: {} | chunked: {}", k, cuts, d, cfg_show(c.cfg), show_recs(&base), show_recs(&chunked)));
+    }
+    let asy = handover_async(data, c.cfg, &cuts, &c.pend, k, c.clear);
+    if let Some(d) = first_diff(&base, &asy) {
+        return Verdict::fail(format!("hand-over through into_inner after {} calls, slice vs async(cuts {:?}, pend {:?}): {} | cfg={} | slice: {} | async: {}", k, cuts, c.pend, d, cfg_show(c.cfg), show_recs(&base), show_recs(&asy)));
+    }
+    let mut v = Verdict::pass(!cuts.is_empty() && !rest.is_empty());
+    v.classes.push("handed-over-through-into_inner");
+    if rest.is_empty() {
+        v.classes.push("nothing-left-at-the-hand-over");
+    }
+    v
+}
+
 // ---------------------------------------------------------------------------------------------
 // raw reads through `Reader::stream()` between events: the bytes obtained, the positions after the
 // raw read and everything read afterwards must not depend on the source type or the chunking
@@ -605,12 +770,13 @@ fn run(ctx: &Ctx) {
         check,
     );
     // proptest: soups with arbitrary cut sets and pending patterns
-    let strat = (gen::soup_strategy(12), 0u8..128, prop::collection::vec(any::<u16>(), 0..10), prop::collection::vec(0u8..3, 0..8), any::<bool>()).prop_map(|(input, cfg, cs, pend, clear)| {
+    let mk_strat = || (gen::soup_strategy(12), 0u8..128, prop::collection::vec(any::<u16>(), 0..10), prop::collection::vec(0u8..3, 0..8), any::<bool>()).prop_map(|(input, cfg, cs, pend, clear)| {
         let len = input.len();
         let cuts = cs.into_iter().map(|c| crate::engine::scale(c, len + 1)).collect();
         Case { input: B(input), cfg, cuts, pend, clear }
     });
-    ctx.run_proptest("soup-x-random-schedules", ctx.tier.pick(2_000_000, 12_000_000), strat, check);
+    ctx.run_proptest("soup-x-random-schedules", ctx.tier.pick(2_000_000, 12_000_000), mk_strat(), check);
+    ctx.run_proptest("soup-x-hand-over-through-into_inner-x-schedules", ctx.tier.pick(500_000, 4_000_000), mk_strat(), check_handover);
     // the namespace-aware reader's resolving reads: documents made of namespace-heavy pieces
     let ns_piece = prop::sample::select(vec![
         "<a xmlns='u1'>", "<p:b xmlns:p='u2'>", "<a xmlns:p=\"urn:p\">", "<p:c/>", "<p:b>", "</p:b>", "</a>", "</x>", "<c xmlns=''/>", "<d xmlns:p=''>", "</d>", "<q:e/>", "<a>", "<b/>", "text", " ", "<!--c-->", "<f p:k='v' k='w'/>",
@@ -703,6 +869,10 @@ fn replay(stage: &str, case: &Value) -> Result<Verdict, String> {
     if stage.contains("NsReader") {
         let c: Case = serde_json::from_value(case.clone()).map_err(|e| e.to_string())?;
         return Ok(check_ns(&c));
+    }
+    if stage.contains("hand-over") {
+        let c: Case = serde_json::from_value(case.clone()).map_err(|e| e.to_string())?;
+        return Ok(check_handover(&c));
     }
     if stage.contains("raw-reads") {
         let c: RawCase = serde_json::from_value(case.clone()).map_err(|e| e.to_string())?;
